@@ -260,10 +260,15 @@ pub fn damages(op: usize, text: &str, sites: &[Site], stream: &Stream) -> Vec<(S
             }
         }
         _ => {
+            out.push((format!("... text\n{text}"), "text-after-leading-marker"));
+            out.push((format!("...\n... [a]\n{text}"), "flow-after-leading-marker"));
             for s in sites {
                 if let Site::DocEndMarker { pos_after } = s {
                     out.push((format!("{} text{}", &text[..*pos_after], &text[*pos_after..]), "text-after-marker"));
                     out.push((format!("{} [a]{}", &text[..*pos_after], &text[*pos_after..]), "flow-after-marker"));
+                    // a marker that closes nothing (a second one in a row, or one before any document) is policed like one that does
+                    out.push((format!("{}\n... text{}", &text[..*pos_after], &text[*pos_after..]), "text-after-repeated-marker"));
+                    out.push((format!("{}\n...\t\"q\"{}", &text[..*pos_after], &text[*pos_after..]), "quoted-after-repeated-marker"));
                 }
             }
         }
@@ -352,7 +357,7 @@ impl Property for C06P {
          D07 break a quoted implicit key (of a block mapping, or of a single pair in a flow sequence) over two lines, D08 lengthen an implicit key (plain / quoted, with or without node properties, or a flow collection given a 1100-character first entry; of a block mapping or of a single pair in a flow sequence) by 1100 characters, D09 append a \
          second quoted / flow root after a completed quoted / flow root, D10 unknown escape letters and \\x \\u \\U with a missing or non-hexadecimal digit (letter, sign, blank, underscore), D11 replace \
          a plain value by an alias to a name never anchored or anchored only in an earlier document, D12 prefix a value with '!zz!x' or with a handle declared only by an earlier document, D13 two %YAML lines, D14 a directive before \
-         a bare document or at the end of the stream, D15 text after '...' on the same line. Plus the 94 error cases of the test suite. \
+         a bare document or at the end of the stream, D15 text after '...' on the same line (a marker that ends a document, a repeated marker, a marker before the first document). Plus the 94 error cases of the test suite. \
          One damaged stream in four is additionally converted to CR LF line breaks. Oracle: iteration ends in Err on StrInput and BufferedInput. The operator is chosen among those with a site in the stream. \
          Non-trivial = undamaged accepted and damaged differs; distinct by (operator, damaged text)."
             .into()
